@@ -30,7 +30,7 @@ func init() {
 		},
 		Run:            c13Run,
 		Floor:          func(tier string) int { return 3000 },
-		Rule:           "signatures with 1..3 graph inputs of rank 1..4 whose dimensions are each fixed / symbolic / unspecified (symbolic non-leading axes included), some inputs shadowed by initializers, some declared but not consumed by any node; identity-like graphs (one Relu per consumed input) so that acceptance is observable as a correct value; supplied sets: a name omitted, permuted insertion order, extra names (also named like a pure initializer), a rank from 0..5, one axis resized to {declared-1, declared+1, 1, 7}; each supplied set is judged on a freshly loaded model, after one conforming Run, or after conforming Run + rejected empty set + conforming Run on the same Model (acceptance must not depend on earlier calls). Oracle (Appendix A.12): accepted iff every non-initializer input is present with the declared rank and matching fixed dimensions; on rejection Run returns an error and nil outputs, the operator proxy sees no apply event and no supplied tensor changes; on acceptance every output equals relu(input) and extra tensors change nothing; a supplied value for a shadowed input replaces the initializer. Introspection: InputNames/ParamNames/InputShapes/InputDimSize agree with the declaration and with what Run enforces (dynamic <=> every probed size accepted). Non-trivial = the supplied set deviates from the declaration in exactly one respect or exercises a symbolic/unspecified dimension; distinct = (signature, deviation).",
+		Rule:           "signatures with 1..3 graph inputs of rank 1..4 whose dimensions are each fixed / symbolic / unspecified (symbolic non-leading axes included), some inputs shadowed by initializers, some declared but not consumed by any node; identity-like graphs (one Relu per consumed input) so that acceptance is observable as a correct value; supplied sets: a name omitted, permuted insertion order, extra names (also named like a pure initializer), a rank from 0..5, one axis resized to {declared-1, declared+1, 1, 7}, the tensor object of an earlier conforming Run reshaped in place by its owner; each supplied set is judged on a freshly loaded model, after one conforming Run, or after conforming Run + rejected empty set + conforming Run on the same Model (acceptance must not depend on earlier calls). Oracle (Appendix A.12): accepted iff every non-initializer input is present with the declared rank and matching fixed dimensions; on rejection Run returns an error and nil outputs, the operator proxy sees no apply event and no supplied tensor changes; on acceptance every output equals relu(input) and extra tensors change nothing; a supplied value for a shadowed input replaces the initializer. Introspection: InputNames/ParamNames/InputShapes/InputDimSize agree with the declaration and with what Run enforces (dynamic <=> every probed size accepted). Non-trivial = the supplied set deviates from the declaration in exactly one respect or exercises a symbolic/unspecified dimension; distinct = (signature, deviation).",
 		RaceInThorough: true,
 		Technique:      "runtime monitoring: acceptance oracle from the declared signature, proxy trace check (no apply before/after a rejection), deep fingerprints of supplied tensors, introspection cross-check",
 		Assumptions:    []string{"element types are not part of the checked signature (the statement speaks of rank and dimensions only)"},
@@ -116,7 +116,38 @@ func c13Run(c *Ctx) {
 	deviation := "none"
 	accept := true
 	victim := ins[r.Intn(nIn)]
-	switch r.Intn(9) {
+	inPlace := false // the deviating tensor is the object of an earlier conforming Run, reshaped in place
+	switch r.Intn(10) {
+	case 9: // the SAME tensor object as in an earlier conforming Run, reshaped in place by its owner
+		if t, ok := feed[victim.name]; ok && len(t.Bits) > 1 {
+			var shape []int
+			switch r.Intn(3) {
+			case 0:
+				shape = []int{len(t.Bits)}
+			case 1:
+				shape = append([]int{1}, t.Shape...)
+			default:
+				for i := len(t.Shape) - 1; i >= 0; i-- {
+					shape = append(shape, t.Shape[i])
+				}
+			}
+			if !ref.ShapeEq(shape, t.Shape) {
+				nt := t.Clone()
+				nt.Shape = shape
+				feed[victim.name] = nt
+				inPlace = true
+				deviation = fmt.Sprintf("the tensor object of the earlier Run for %s reshaped in place %v->%v", victim.name, t.Shape, shape)
+				if !victim.shadowed {
+					conforms := len(shape) == len(victim.dims)
+					for d := 0; conforms && d < len(shape); d++ {
+						if victim.dims[d].Value > 0 && int64(shape[d]) != victim.dims[d].Value {
+							conforms = false
+						}
+					}
+					accept = conforms
+				}
+			}
+		}
 	case 0, 1: // conforming
 	case 2: // omit a name
 		if _, ok := feed[victim.name]; ok {
@@ -184,6 +215,9 @@ func c13Run(c *Ctx) {
 	}
 	// earlier calls on the same Model: what Run accepts must not depend on them
 	history := r.Intn(3)
+	if inPlace && history == 0 {
+		history = 1
+	}
 	sigStr := sigString(ins)
 	c.SetCase("signature %s; supplied %s; deviation: %s; expect accept=%v; earlier calls on the model: %s", sigStr, feedString(feed), deviation, accept, []string{"none", "one conforming Run", "conforming Run, rejected empty set, conforming Run"}[history])
 	c.Count(fmt.Sprintf("history:%d", history), 1)
@@ -208,10 +242,17 @@ func c13Run(c *Ctx) {
 			return nil, fmt.Errorf("load: %w", err)
 		}
 		px = mon.Attach(m)
+		held := map[string]tensor.Tensor{}
 		prior := func(f map[string]*ref.T) error {
 			in := gonnx.Tensors{}
 			for k, v := range f {
 				in[k] = mon.ToTensor(v)
+				if inPlace && k == victim.name {
+					if held[k] == nil {
+						held[k] = in[k]
+					}
+					in[k] = held[k]
+				}
 			}
 			_, err := m.Run(in)
 			return err
@@ -230,6 +271,11 @@ func c13Run(c *Ctx) {
 		priorEvents = len(px.Events())
 		for k, v := range feed {
 			supplied[k] = mon.ToTensor(v)
+			if t := held[k]; inPlace && k == victim.name && t != nil {
+				if err := t.Reshape(v.Shape...); err == nil {
+					supplied[k] = t
+				}
+			}
 			before[k] = mon.Fp(supplied[k])
 		}
 		res, err = m.Run(supplied)
